@@ -4,7 +4,7 @@ Python only orchestrates: it instantiates model families, runs TLC (design check
 and the trace monitor), runs the Go executor built from /repo's working tree, and assembles
 verdicts and evidence.  Every expectation about ark's behaviour lives in the TLA+ modules.
 """
-import argparse, glob, hashlib, json, os, re, shutil, subprocess, sys, time
+import argparse, threading, glob, hashlib, json, os, re, shutil, subprocess, sys, time
 from concurrent.futures import ThreadPoolExecutor
 
 VERIF = os.path.abspath(os.path.join(os.path.dirname(os.path.abspath(__file__)), ".."))
@@ -889,6 +889,56 @@ def check_generic(ctx):
     return finish(ctx, "bounded: see families/cells")
 
 
+def run_tlc_model(ctx, module, mcdefs, cfgtext, label, workers=8, timeout=900):
+    """Run TLC on a stand-alone model (no emission); returns (generated, distinct, violated-invariant or None)."""
+    d = os.path.join(ctx.work, "model-" + label)
+    os.makedirs(d, exist_ok=True)
+    for t in glob.glob(os.path.join(SPEC, "*.tla")):
+        shutil.copy(t, d)
+    open(os.path.join(d, "MC_x.tla"), "w").write("---- MODULE MC_x ----\nEXTENDS %s\n%s\n====\n" % (module, mcdefs))
+    open(os.path.join(d, "x.cfg"), "w").write(cfgtext)
+    p, dt = run(["tlc", "-workers", str(workers), "-metadir", os.path.join(d, "meta"), "-config", "x.cfg", "MC_x.tla"], timeout, cwd=d)
+    gen, dist = parse_tlc_stats(p.stdout)
+    ctx.stats["states"] += dist
+    ctx.stats["transitions"] += gen
+    bad = None
+    if "Model checking completed. No error has been found" not in p.stdout:
+        m = re.search(r"(Invariant|Action property|Temporal properties) ?(\w+)? ?(is|were) violated", p.stdout)
+        if not m:
+            raise Inconclusive("TLC failed on %s:\n%s" % (label, p.stdout[-2500:]))
+        bad = m.group(2) or m.group(1)
+    ctx.stats["families"].append(dict(family=label, states=dist, transitions=gen, wall_s=round(dt, 1), violated=bad))
+    ctx.stats["tlc_cmds"].append("tlc -config x.cfg MC_x.tla  # %s: %s" % (label, cfgtext.replace("\n", "; ")[:300]))
+    return gen, dist, bad
+
+
+def exec_logs_and_monitor(ctx, jobs, label):
+    """jobs: list of (cmd, cfg, logpath, cell).  Runs the executor commands, then the monitor on every log."""
+    def one(j):
+        cmd, cfg, lp, cell = j
+        return exec_proc(ctx, cmd, label, cfg, label, cell) or dict(read=0, executed=0, events=0, panics=0, crashed=True)
+    with ThreadPoolExecutor(max_workers=NCPU) as ex:
+        stats = list(ex.map(one, jobs))
+    live = [(j, st) for j, st in zip(jobs, stats) if not st.get("crashed")]
+    for (cmd, cfg, lp, cell), st in live:
+        shutil.copy(os.path.join(SPEC, "ArkTrace.tla"), os.path.dirname(lp))
+        shutil.copy(os.path.join(SPEC, "ArkWorld.tla"), os.path.dirname(lp))
+    with ThreadPoolExecutor(max_workers=MON_PAR) as ex:
+        verdicts = list(ex.map(lambda js: run_monitor(ctx, js[0][2]), live))
+    for ((cmd, cfg, lp, cell), st), v in zip(live, verdicts):
+        if v["seqs"] != st["executed"] or v["lines"] != st["events"]:
+            raise Inconclusive("monitor consumed %s/%s lines of %s" % (v["lines"], st["events"], lp))
+        ctx.stats["traces"] += v["seqs"]
+        ctx.stats["events"] += v["lines"]
+        for vi in v["viol"]:
+            ctx.violations.append(dict(cls=vi["cls"], detail=vi["d"], line=vi["l"], ops=load_seq_of_log(lp, vi["seq"]), cfg=cfg,
+                                       family=label, cell=cell, cmd=cmd))
+        ctx.stats["cells"].append(dict(family=label, cell=cell, cfg=cfg, sequences=st["executed"], events=st["events"]))
+        if not ctx.stats["samples"]:
+            with open(lp) as f:
+                ctx.stats["samples"].append(dict(family=label, cell=cell, log_head=[json.loads(next(f)) for _ in range(3)]))
+
+
 def variants_for(ctx, pid):
     """Executor variants of the product checks (also used by --replay)."""
     if pid == "C12":
@@ -983,11 +1033,21 @@ def zip_logs(paths, mode, out):
     return n, True
 
 
+def atomic_install(src, dst, text=None):
+    tmp = "%s.tmp%d.%d" % (dst, os.getpid(), threading.get_ident())
+    if src:
+        shutil.copy(src, tmp)
+    else:
+        open(tmp, "w").write(text)
+    os.replace(tmp, dst)
+
+
 def run_prod_monitor(ctx, logpath, timeout=900):
     d = os.path.dirname(logpath)
-    shutil.copy(os.path.join(SPEC, "ArkProd.tla"), d)
     cfgp = os.path.join(d, "prod.cfg")
-    open(cfgp, "w").write("SPECIFICATION PSpec\nINVARIANT Done\nCHECK_DEADLOCK FALSE\n")
+    # several product monitors run in parallel in the same directory: install the files atomically
+    atomic_install(os.path.join(SPEC, "ArkProd.tla"), os.path.join(d, "ArkProd.tla"))
+    atomic_install(None, cfgp, "SPECIFICATION PSpec\nINVARIANT Done\nCHECK_DEADLOCK FALSE\n")
     env = dict(os.environ, TRACE_FILE=logpath, JAVA_TOOL_OPTIONS="-XX:ParallelGCThreads=1 -XX:CICompilerCount=2 -Xms1g -Xmx6g -Xss64m")
     p, dt = run(["tlc", "-workers", "1", "-metadir", logpath + ".meta", "-config", cfgp, os.path.join(d, "ArkProd.tla")], timeout, env=env, cwd=d)
     shutil.rmtree(logpath + ".meta", ignore_errors=True)
